@@ -150,7 +150,7 @@ namespace adept {
       
 #pragma omp for schedule(static)
       for (int iblock = 0; iblock < n_block; iblock++) {
-#ifdef RJHOGAN_ADEPT_2_VERIF
+#if defined(RJHOGAN_ADEPT_2_VERIF) && defined(_OPENMP)
 	++verif_jacobian_blocks_by_thread[omp_get_thread_num() & 63];
 #endif
 	// Set the index to the dependent variables for this block
@@ -363,7 +363,7 @@ namespace adept {
       
 #pragma omp for schedule(static)
       for (int iblock = 0; iblock < n_block; iblock++) {
-#ifdef RJHOGAN_ADEPT_2_VERIF
+#if defined(RJHOGAN_ADEPT_2_VERIF) && defined(_OPENMP)
 	++verif_jacobian_blocks_by_thread[omp_get_thread_num() & 63];
 #endif
 	// Set the index to the dependent variables for this block
